@@ -281,6 +281,19 @@ class C01(Check):
                         for v in loader_case(case, sandbox):
                             res.violation(v["signature"], v["what"], case)
                         res.case(nontrivial=[kind, ns_mode, name, glb is not None], outcome=f"L:{kind}")
+            # request sequences on one loader (miss then hit), sync API vs async API
+            if kind.startswith("caching"):
+                seqs = [[None, {"g": 7}], [{"g": 7}, None], [{"g": 7}, {"g": 8}], [{"g": 7}, {"g": 7}, None]]
+                for ns_mode in ("none", "kwarg", "context"):
+                    for name in ("a", "sub/b", "missing", "both"):
+                        for auto in (True, False):
+                            for envg in (True, False):
+                                for gs in seqs:
+                                    case = {"part": "LS", "kind": kind, "ns_mode": ns_mode, "name": name,
+                                            "auto_reload": auto, "env_globals": envg, "globals_seq": gs}
+                                    for v in loader_seq_case(case, sandbox):
+                                        res.violation(v["signature"], v["what"], case)
+                                    res.case(nontrivial=["LS", kind, ns_mode, name, auto, envg, gs], outcome=f"LS:{kind}")
         finally:
             shutil.rmtree(sandbox, ignore_errors=True)
 
@@ -313,10 +326,10 @@ class C01(Check):
             if p.ok:
                 self.compare(res, p.value, case["source"], C02.decode_data(case["data"]), "replay", "D", case["env"])
             return res.violations
-        if part == "L":
+        if part in ("L", "LS"):
             sandbox = tempfile.mkdtemp(prefix="c01_")
             try:
-                return loader_case(case, sandbox)
+                return loader_case(case, sandbox) if part == "L" else loader_seq_case(case, sandbox)
             finally:
                 shutil.rmtree(sandbox, ignore_errors=True)
         env = make_env_desc({"kind": "A", "mode": "strict"})
@@ -359,8 +372,10 @@ def write_tree(root: str, files: dict[str, str]) -> None:
             fd.write(body)
 
 
-def make_loader(kind: str, sandbox: str, namespaced: bool) -> Any:
-    nk = {"namespace_key": "uid"} if namespaced else {}
+def make_loader(kind: str, sandbox: str, namespaced: bool, auto_reload: bool = True) -> Any:
+    nk: dict[str, Any] = {"namespace_key": "uid"} if namespaced else {}
+    if kind.startswith("caching"):
+        nk["auto_reload"] = auto_reload
     r1, r2 = os.path.join(sandbox, "r1"), os.path.join(sandbox, "r2")
     if not os.path.isdir(r1):
         write_tree(r1, FILES)
@@ -455,6 +470,41 @@ def loader_case(case: dict[str, Any], sandbox: str) -> list[dict[str, Any]]:
             "case": case,
         })
     return out
+
+
+def loader_seq_case(case: dict[str, Any], sandbox: str) -> list[dict[str, Any]]:
+    """Two requests in a row on ONE loader (cache miss, then cache hit) through the sync API, and the same
+    two requests on another fresh loader through the async API: both results must agree pairwise."""
+    kind, ns_mode, name = case["kind"], case["ns_mode"], case["name"]
+
+    def run(is_async: bool) -> list[Any]:
+        loader = make_loader(kind, sandbox, ns_mode != "none", case["auto_reload"])
+        env = U.make_env(loader=loader, extra=True, globals={"eg": 1} if case["env_globals"] else None)
+        outs = []
+        for glb in case["globals_seq"]:
+            kwargs: dict[str, Any] = {}
+            if glb is not None:
+                kwargs["globals"] = dict(glb)
+            if ns_mode == "kwarg":
+                kwargs["uid"] = "u1"
+            elif ns_mode == "context":
+                kwargs["context"] = liquid.RenderContext(env.from_string(""), globals={"uid": "u1"})
+            if is_async:
+                o = U.outcome(lambda: describe_template(U.run_coro_loop(env.get_template_async(name, **kwargs))))
+            else:
+                o = U.outcome(lambda: describe_template(env.get_template(name, **kwargs)))
+            outs.append(o.kind())
+        return outs
+
+    s, a = run(False), run(True)
+    if s != a:
+        idx = next(i for i, (x, y) in enumerate(zip(s, a)) if x != y)
+        return [{"signature": {"clause": "load-sequence-sync-vs-async", "loader": kind, "ns_mode": ns_mode,
+                               "auto_reload": case["auto_reload"], "request_index": idx},
+                 "what": f"{kind} loader (auto_reload={case['auto_reload']}, ns={ns_mode}) requests {case['globals_seq']} for "
+                         f"{name!r}: request #{idx} sync -> {s[idx]!r}; async -> {a[idx]!r}",
+                 "case": case}]
+    return []
 
 
 def norm_analysis(an: Any) -> Any:
